@@ -261,7 +261,8 @@ CHECKS = {
             '(flagged qpos change, any applied force / generalized force / velocity on the tree), mj_wakeCollision (geom contact with an awake tree or an '
             'awake dof-less body), mj_wakeTendon (limited two-tree tendon), mj_wakeEquality (active connect / weld / joint equality) each leave the '
             'sleeping tree awake and never put an awake tree to sleep - proved against a weak view of mj_wakeIsland / mj_sleepCycle that is itself '
-            'proved on the same bodies; treeCanSleep (exact form); the per-pair sleep filter of the collision driver (filterCollisionPair).',
+            'proved on the same bodies; treeCanSleep (exact form); mj_sleep countdown sweep (prefix contract: sleeping trees untouched, an awake tree that may sleep counts up to -1, '
+            'one that may not restarts at -(1+mjMINAWAKE), none falls asleep there); the per-pair sleep filter of the collision driver (filterCollisionPair).',
             'Trusted: VC generator, clang, z3/cvc5. The debug-log blocks are compiled out with the repository switch '
             'MJ_DISABLE_DEBUG_TRACING. Wake sweeps: derived flags current at entry (the proved postcondition of mj_updateSleepInit), normal returns only, '
             'calls * ntree < 2^31, geom-geom contacts. Not decided (listed): bit-identical qpos of sleeping trees across steps, mj_sleep, '
